@@ -89,7 +89,12 @@ func menu(genesisCoinbase common.Uint256) *menuT {
 	var fo []*common2.Output
 	for i := 0; i < nFund; i++ {
 		to := addrA
-		if i%4 == 3 {
+		switch {
+		case i == 16 || i == 17:
+			to = addrB
+		case i == 18:
+			to = addrC
+		case i%4 == 3:
 			to = addrX
 		}
 		fo = append(fo, sk.Out(to, 1000))
@@ -126,6 +131,15 @@ func menu(genesisCoinbase common.Uint256) *menuT {
 	add(&op{name: "trk2", txs: []interfaces.Transaction{sk.Tracking(12, ins(f, 6), outs(sk.Out(addrA, 1000)), prop.Hash(), msg2, sgOpinion)}, needs: []string{"prop"}})
 	add(&op{name: "regp", txs: []interfaces.Transaction{sk.RegisterProducer(13, ins(f, 8), outs(sk.Out(addrB, 1000)))}})
 	add(&op{name: "regcr", txs: []interfaces.Transaction{sk.RegisterCR(14, ins(f, 9), outs(sk.Out(addrB, 1000)))}})
+	// several transfers in one block, in both directions among the addresses, all spending
+	// outputs of earlier blocks
+	add(&op{name: "multi2", txs: []interfaces.Transaction{
+		sk.Transfer(30, ins(f, 12), outs(sk.Out(addrB, 1000))),
+		sk.Transfer(31, ins(f, 16), outs(sk.Out(addrA, 1000)))}})
+	add(&op{name: "multi3", txs: []interfaces.Transaction{
+		sk.Transfer(32, ins(f, 13), outs(sk.Out(addrB, 600), sk.Out(addrC, 400))),
+		sk.Transfer(33, ins(f, 17), outs(sk.Out(addrC, 1000))),
+		sk.Transfer(34, ins(f, 18), outs(sk.Out(addrA, 700), sk.Out(addrB, 300)))}})
 	add(&op{name: "nextturn", txs: []interfaces.Transaction{sk.NextTurn(16, 100)}})
 	add(&op{name: "vote", txs: []interfaces.Transaction{sk.Transfer(15, ins(f, 10), outs(sk.VoteOut(addrC, 900), sk.Out(addrC, 100)))}})
 
@@ -603,6 +617,53 @@ func sigs(fs []fail) string {
 	return strings.Join(s, " ; ")
 }
 
+// divergence handles an in-place state (reached through earlier connect/disconnect pairs) whose
+// dump differs from a fresh replay of the same connect sequence: a disconnect left something
+// behind that the dump only shows at the next connect (e.g. an in-memory counter). The minimal
+// witness [empty, ~] + path is executed on a fresh store; if it reproduces a difference it is a
+// violation of "rollback to k equals building k directly", otherwise an engine error.
+func (e *explorer) divergence(child []string, df []string) {
+	fs := divergenceFails(e, append([]string{"empty", "~"}, child...))
+	if len(fs) == 0 {
+		evid.Fatalf("in-place state after %v differs from a fresh replay (%v) but [empty ~]+path does not", child, df)
+	}
+	full := append([]string{"empty", "~"}, child...)
+	e.mu.Lock()
+	for _, f := range fs {
+		cur := e.found[f.sig]
+		if cur == nil {
+			cur = &found{}
+			e.found[f.sig] = cur
+		}
+		cur.count++
+		if cur.hist == nil || less(full, cur.hist) {
+			cur.hist, cur.what = full, f.what
+		}
+	}
+	e.mu.Unlock()
+}
+
+// divergenceFails compares the dump after hist with the dump after the connect sequence hist
+// reduces to, both on fresh stores.
+func divergenceFails(e *explorer, hist []string) []fail {
+	a := e.build(hist)
+	da := dump(a)
+	a.Destroy()
+	b := e.build(active(hist))
+	db := dump(b)
+	b.Destroy()
+	var fs []fail
+	seen := map[string]bool{}
+	for _, l := range sk.Diff(db, da) {
+		sig := "C13|replay-divergence|bucket=" + sk.Bucket(l)
+		if !seen[sig] {
+			seen[sig] = true
+			fs = append(fs, fail{sig, fmt.Sprintf("history %v and its reduced connect sequence %v end in different metadata: %s", hist, active(hist), l)})
+		}
+	}
+	return fs
+}
+
 // expand explores all children of the node reached by hist. The store is in that state on
 // entry and on return. budget = connects still allowed below. stopAt > 0 limits the descent to
 // connect sequences of that length (root task of a sharded run).
@@ -637,7 +698,7 @@ func (e *explorer) expand(c *ctx, hist []string, preD sk.Canon, budget int, stop
 				fs.Destroy()
 				atomic.AddInt64(&e.selfChecks, 1)
 				if df := sk.Diff(fd, cd); len(df) > 0 {
-					evid.Fatalf("in-place state after %v differs from a fresh replay: %v", child, df)
+					e.divergence(child, df)
 				}
 			}
 			if len(child) == e.maxDepth && !hasUndo(child) {
@@ -742,6 +803,16 @@ func main() {
 		want := r.LoadReplay(&a)
 		e := &explorer{r: r, base: base, m: m, states: map[string]bool{}, confirmed: map[string]bool{}, found: map[string]*found{}}
 		h := a.History
+		if strings.HasPrefix(want, "C13|replay-divergence") {
+			fs := divergenceFails(e, h)
+			fmt.Printf("replay %v (expected %s):\n", h, want)
+			for _, f := range fs {
+				fmt.Printf("  FAIL %s — %s\n", f.sig, f.what)
+				r.Violate(f.sig, f.what, map[string]interface{}{"system": "c13-store", "history": h})
+			}
+			os.RemoveAll(base)
+			r.Finish(evid.Coverage{})
+		}
 		if len(h) < 2 || h[len(h)-1] != "~" {
 			evid.Fatalf("replay history must end with connect,disconnect: %v", h)
 		}
